@@ -41,8 +41,34 @@ type binCase struct {
 	KeyCnt   int      `json:"keycnt"`   //
 	Password string   `json:"password"` // hex of the seed password bytes (unused with bip39=-1)
 	SeedPfx  string   `json:"seedpfx"`  // hex of the wallet.cfg "seed=" value ("" = none)
+	P39On    bool     `json:"p39on"`    // -p39 given (also implied by a non-empty P39 in older replay files)
+	P39Term  string   `json:"p39term"`  // how the typed line ends: lf | crlf | eof
+	CRLF     bool     `json:"crlf"`     // wallet.cfg written with CR LF line ends
 	Via      string   `json:"via"`      // stdin | file (.secret)
 	Flags    bool     `json:"flags"`    // options as command-line switches instead of wallet.cfg lines
+}
+
+// p39 tells whether -p39 is used, the bytes typed on stdin and the passphrase the wallet's line reader delivers:
+// sys.ReadPassword reads once (up to 1024 bytes) and cuts every trailing byte below 0x20 - CR, LF, but also a
+// trailing TAB - off the line; leading white space and trailing spaces stay.
+func (c binCase) p39() (on bool, typed []byte, effective string) {
+	on = c.P39On || c.P39 != ""
+	if !on || c.Via != "file" || c.Bip39 != -1 {
+		return false, nil, ""
+	}
+	term := "\n"
+	switch c.P39Term {
+	case "crlf":
+		term = "\r\n"
+	case "eof":
+		term = ""
+	}
+	typed = []byte(c.P39 + term)
+	e := typed
+	for len(e) > 0 && e[len(e)-1] < ' ' {
+		e = e[:len(e)-1]
+	}
+	return true, typed, string(e)
 }
 
 var (
@@ -175,7 +201,11 @@ func setupWallet(dir string, c binCase) (args []string, stdin []byte, err error)
 		cfg = append(cfg, "seed="+string(pfx))
 	}
 	if len(cfg) > 0 {
-		if err = os.WriteFile(filepath.Join(dir, "wallet.cfg"), []byte(strings.Join(cfg, "\n")+"\n"), 0o600); err != nil {
+		eol := "\n"
+		if c.CRLF {
+			eol = "\r\n"
+		}
+		if err = os.WriteFile(filepath.Join(dir, "wallet.cfg"), []byte(strings.Join(cfg, eol)+eol), 0o600); err != nil {
 			return
 		}
 	}
@@ -192,9 +222,9 @@ func setupWallet(dir string, c binCase) (args []string, stdin []byte, err error)
 		if err = os.WriteFile(filepath.Join(dir, ".secret"), pw, 0o600); err != nil {
 			return
 		}
-		if c.P39 != "" {
+		if on, typed, _ := c.p39(); on {
 			args = append(args, "-p39")
-			stdin = []byte(c.P39 + "\n")
+			stdin = typed
 		}
 	} else {
 		args = append(args, "-stdin")
@@ -277,8 +307,9 @@ func findTagged(lines []string, tag string) string {
 }
 
 type binInfo struct {
-	keys    int
-	refKeys bool // keys were compared with reference derivation
+	refusedEmptyP39 bool
+	keys            int
+	refKeys         bool // keys were compared with reference derivation
 }
 
 func checkBinary(c binCase) (info binInfo, err error) {
@@ -302,6 +333,20 @@ func checkBinary(c binCase) (info binInfo, err error) {
 		return fmt.Sprintf("exit %d\nstdout: %.1500s\nstderr: %.800s", r.code, r.stdout, r.stderr)
 	}
 
+	p39on, _, effPass := c.p39()
+	if p39on && effPass == "" {
+		// -p39 with an empty line: the wallet documents that it refuses ("just do not use -p39")
+		r0, err := run("-l")
+		if err != nil {
+			return info, err
+		}
+		if _, e := os.Stat(filepath.Join(dir, "wallet.txt")); e != nil {
+			info.refusedEmptyP39 = true
+			return info, nil
+		}
+		_ = r0 // a wallet was listed after all: it must then be the wallet of the empty passphrase (checked below)
+	}
+
 	// --- two listings -------------------------------------------------------------------------
 	var listing [2][]byte
 	var lres [2]runResult
@@ -322,7 +367,7 @@ func checkBinary(c binCase) (info binInfo, err error) {
 	}
 	comments, lines := listedLines(string(listing[0]))
 	// the password is the same bytes whether it comes from the .secret file or from stdin
-	if c.P39 == "" {
+	if !p39on {
 		other := c
 		if c.Via == "file" {
 			other.Via = "stdin"
@@ -434,6 +479,33 @@ func checkBinary(c binCase) (info binInfo, err error) {
 			}
 		}
 	}
+	// the wallet.cfg seed= value is documented as a prefix of the password: the same wallet must come out when the
+	// prefix is typed as part of the password instead (this holds for every wallet type and bip39 mode)
+	if c.SeedPfx != "" && c.Bip39 != -1 {
+		pfx, _ := hex.DecodeString(c.SeedPfx)
+		pw, _ := hex.DecodeString(c.Password)
+		joined := c
+		joined.SeedPfx = ""
+		joined.Password = hex.EncodeToString(append(append([]byte{}, bytes.Trim(pfx, " \t\r\n")...), pw...))
+		dirj, err := os.MkdirTemp("", "c14w")
+		if err != nil {
+			return info, err
+		}
+		defer os.RemoveAll(dirj)
+		argsj, stdinj, err := setupWallet(dirj, joined)
+		if err != nil {
+			return info, err
+		}
+		rj, err := runWallet(bin, dirj, stdinj, append(argsj, "-l")...)
+		if err != nil {
+			return info, err
+		}
+		lj, _ := os.ReadFile(filepath.Join(dirj, "wallet.txt"))
+		if rj.code != 0 || !bytes.Equal(lj, listing[0]) {
+			return info, fmt.Errorf("seed=%q in wallet.cfg plus password %q gives a different wallet than the password %q without a prefix:\n%s\n---\n%s\n%s",
+				pfx, pw, append(append([]byte{}, bytes.Trim(pfx, " \t\r\n")...), pw...), listing[0], lj, desc(rj))
+		}
+	}
 	// exported WIF keys re-import (through the .others file of another wallet) to the same keys and addresses
 	{
 		dir3, err := os.MkdirTemp("", "c14w")
@@ -493,12 +565,14 @@ func checkBinary(c binCase) (info binInfo, err error) {
 	pass, _ := hex.DecodeString(c.Password)
 	if c.SeedPfx != "" {
 		pfx, _ := hex.DecodeString(c.SeedPfx)
-		pass = append(pfx, pass...)
+		pfx = bytes.Trim(pfx, " \t\r\n") // wallet.cfg syntax: white space around a value does not belong to it
+		pass = append(append([]byte{}, pfx...), pass...)
 	}
 	if c.Scrypt != 0 {
 		pass = hd.Scrypt(pass, []byte("Gocoin scrypt password salt"), 1<<uint(c.Scrypt), 8, 1, 32)
 	}
 	seed := pass
+	var rawSeed []byte // set when the BIP39 passphrase is changed by NFKD: the seed of the bytes as typed
 	if c.Bip39 != 0 {
 		wres, err := run("-words")
 		if err != nil {
@@ -532,147 +606,166 @@ func checkBinary(c binCase) (info binInfo, err error) {
 		if _, e := hd.EntropyFromMnemonic(mn); e != nil {
 			return info, fmt.Errorf("wallet -words shows %q which is not a valid BIP39 sentence: %v", mn, e)
 		}
-		passphrase := ""
 		if c.Bip39 == -1 {
 			ent, _ := hex.DecodeString(c.Entropy)
 			um, _ := hd.MnemonicFromEntropy(ent)
 			if mn != um {
 				return info, fmt.Errorf("the user's mnemonic %q is shown by -words as %q", um, mn)
 			}
-			if c.Via == "file" {
-				passphrase = c.P39
-			}
 		} else if len(ws) != c.Bip39 {
 			return info, fmt.Errorf("bip39=%d but -words shows %d words", c.Bip39, len(ws))
 		}
-		seed = hd.Seed(mn, passphrase)
-	}
-	master, e := hd.MasterAnyLength(seed, hd.VerXprv)
-	if e != nil {
-		return info, nil // unreachable without an HMAC pre-image
-	}
-	L := len(c.Path)
-	var refKeys [][]byte
-	var parents []*hd.ExtKey
-	for s := 0; s < subs; s++ {
-		pp := append([]uint32{}, c.Path[:L-1]...)
-		if L >= 2 {
-			pp[L-2] += uint32(s)
-		}
-		parent, e := master.Derive(pp)
-		if e != nil {
-			return info, nil
-		}
-		parents = append(parents, parent)
-		for i := 0; i < c.KeyCnt; i++ {
-			k, e := parent.Child(c.Path[L-1] + uint32(i))
-			if e != nil {
-				return info, nil
+		// BIP39: PBKDF2 over the NFKD forms of sentence and passphrase
+		if s, ok := hd.SeedNFKD(mn, effPass); ok {
+			seed = s
+			if !hd.NFKDStable(effPass) {
+				rawSeed = hd.Seed(mn, effPass)
 			}
-			refKeys = append(refKeys, k.PrivKey())
+		} else {
+			seed = hd.Seed(mn, effPass) // (not generated: a character the reference cannot normalise)
 		}
 	}
-	for i := range refKeys {
-		if !bytes.Equal(refKeys[i], dump[i].key) {
-			return info, fmt.Errorf("key %d is %x, reference derivation along %s (sub-account %d, child +%d) gives %x",
-				i, dump[i].key, pathString(c.Path), i/c.KeyCnt, i%c.KeyCnt, refKeys[i])
-		}
-	}
-	info.refKeys = true
-
-	// --- exported extended keys -----------------------------------------------------------------
-	sameBody := func(what, s string, want *hd.ExtKey, private bool) error {
-		k, e := hd.Parse(s)
+	// everything below is decided by the seed: keys, extended keys
+	verify := func(seed []byte) error {
+		master, e := hd.MasterAnyLength(seed, hd.VerXprv)
 		if e != nil {
-			return fmt.Errorf("%s %q is not a valid extended key: %v", what, s, e)
+			return nil // unreachable without an HMAC pre-image
 		}
-		if k.IsPrivate() != private || hd.IsTestnetVersion(k.Version) != c.Testnet {
-			return fmt.Errorf("%s %q has version %08x (private=%v, testnet=%v expected)", what, s, k.Version, private, c.Testnet)
-		}
-		w := want
-		if !private {
-			w = want.Neuter()
-		}
-		if !bytes.Equal(k.Serialize()[4:], w.Serialize()[4:]) {
-			return fmt.Errorf("%s is %s, reference (same version) %s", what, s, (&hd.ExtKey{Version: k.Version, Depth: w.Depth, ParentFP: w.ParentFP, Index: w.Index, ChainCode: w.ChainCode, Key: w.Key}).String())
-		}
-		return nil
-	}
-	xres, err := run("-xprv")
-	if err != nil {
-		return info, err
-	}
-	xl := strings.Split(xres.stdout, "\n")
-	root, leaf := findTagged(xl, "Root:"), findTagged(xl, "Leaf:")
-	if xres.code != 0 || root == "" || leaf == "" {
-		return info, fmt.Errorf("wallet -xprv failed: %s", desc(xres))
-	}
-	if err := sameBody("-xprv Root", root, master, true); err != nil {
-		return info, err
-	}
-	if err := sameBody("-xprv Leaf", leaf, parents[0], true); err != nil {
-		return info, err
-	}
-	// extended public keys shown with the listing derive the public counterparts of the listed keys
-	if s := findTagged(comments, "Root:"); s != "" {
-		if err := sameBody("listed Root", s, master, false); err != nil {
-			return info, err
-		}
-		k, _ := hd.Parse(s)
-		for sub := 0; sub < subs; sub++ {
+		L := len(c.Path)
+		var refKeys [][]byte
+		var parents []*hd.ExtKey
+		for s := 0; s < subs; s++ {
 			pp := append([]uint32{}, c.Path[:L-1]...)
 			if L >= 2 {
-				pp[L-2] += uint32(sub)
+				pp[L-2] += uint32(s)
 			}
-			par, e := k.Derive(pp)
+			parent, e := master.Derive(pp)
 			if e != nil {
-				return info, fmt.Errorf("listed Root %s cannot derive %s: %v", s, pathString(pp), e)
+				return nil
 			}
+			parents = append(parents, parent)
 			for i := 0; i < c.KeyCnt; i++ {
-				ch, e := par.Child(c.Path[L-1] + uint32(i))
-				if e != nil || !bytes.Equal(ch.PubKey(), pubs[sub*c.KeyCnt+i]) {
-					return info, fmt.Errorf("listed Root %s does not derive the public key of key %d", s, sub*c.KeyCnt+i)
+				k, e := parent.Child(c.Path[L-1] + uint32(i))
+				if e != nil {
+					return nil
 				}
+				refKeys = append(refKeys, k.PrivKey())
 			}
 		}
-	}
-	if s := findTagged(comments, "Leaf:"); s != "" {
-		if err := sameBody("listed Leaf", s, parents[0], false); err != nil {
-			return info, err
-		}
-		k, _ := hd.Parse(s)
-		for i := 0; i < c.KeyCnt; i++ {
-			ch, e := k.Child(c.Path[L-1] + uint32(i))
-			if e != nil || !bytes.Equal(ch.PubKey(), pubs[i]) {
-				return info, fmt.Errorf("listed Leaf %s does not derive the public key of key %d (%v)", s, i, e)
+		for i := range refKeys {
+			if !bytes.Equal(refKeys[i], dump[i].key) {
+				return fmt.Errorf("key %d is %x, reference derivation along %s (sub-account %d, child +%d) gives %x",
+					i, dump[i].key, pathString(c.Path), i/c.KeyCnt, i%c.KeyCnt, refKeys[i])
 			}
 		}
-	}
-	if s := findTagged(comments, "Prnt:"); s != "" && L >= 2 {
-		gp, e := master.Derive(c.Path[:L-2])
-		if e != nil {
-			return info, nil
+		info.refKeys = true
+
+		// --- exported extended keys -----------------------------------------------------------------
+		sameBody := func(what, s string, want *hd.ExtKey, private bool) error {
+			k, e := hd.Parse(s)
+			if e != nil {
+				return fmt.Errorf("%s %q is not a valid extended key: %v", what, s, e)
+			}
+			if k.IsPrivate() != private || hd.IsTestnetVersion(k.Version) != c.Testnet {
+				return fmt.Errorf("%s %q has version %08x (private=%v, testnet=%v expected)", what, s, k.Version, private, c.Testnet)
+			}
+			w := want
+			if !private {
+				w = want.Neuter()
+			}
+			if !bytes.Equal(k.Serialize()[4:], w.Serialize()[4:]) {
+				return fmt.Errorf("%s is %s, reference (same version) %s", what, s, (&hd.ExtKey{Version: k.Version, Depth: w.Depth, ParentFP: w.ParentFP, Index: w.Index, ChainCode: w.ChainCode, Key: w.Key}).String())
+			}
+			return nil
 		}
-		if err := sameBody("listed Prnt", s, gp, false); err != nil {
-			return info, err
+		xres, err := run("-xprv")
+		if err != nil {
+			return err
 		}
-		if c.Path[L-2] < hd.Hardened {
+		xl := strings.Split(xres.stdout, "\n")
+		root, leaf := findTagged(xl, "Root:"), findTagged(xl, "Leaf:")
+		if xres.code != 0 || root == "" || leaf == "" {
+			return fmt.Errorf("wallet -xprv failed: %s", desc(xres))
+		}
+		if err := sameBody("-xprv Root", root, master, true); err != nil {
+			return err
+		}
+		if err := sameBody("-xprv Leaf", leaf, parents[0], true); err != nil {
+			return err
+		}
+		// extended public keys shown with the listing derive the public counterparts of the listed keys
+		if s := findTagged(comments, "Root:"); s != "" {
+			if err := sameBody("listed Root", s, master, false); err != nil {
+				return err
+			}
 			k, _ := hd.Parse(s)
 			for sub := 0; sub < subs; sub++ {
-				par, e := k.Child(c.Path[L-2] + uint32(sub))
+				pp := append([]uint32{}, c.Path[:L-1]...)
+				if L >= 2 {
+					pp[L-2] += uint32(sub)
+				}
+				par, e := k.Derive(pp)
 				if e != nil {
-					return info, fmt.Errorf("listed Prnt %s: %v", s, e)
+					return fmt.Errorf("listed Root %s cannot derive %s: %v", s, pathString(pp), e)
 				}
 				for i := 0; i < c.KeyCnt; i++ {
 					ch, e := par.Child(c.Path[L-1] + uint32(i))
 					if e != nil || !bytes.Equal(ch.PubKey(), pubs[sub*c.KeyCnt+i]) {
-						return info, fmt.Errorf("listed Prnt %s does not derive the public key of key %d", s, sub*c.KeyCnt+i)
+						return fmt.Errorf("listed Root %s does not derive the public key of key %d", s, sub*c.KeyCnt+i)
 					}
 				}
 			}
 		}
+		if s := findTagged(comments, "Leaf:"); s != "" {
+			if err := sameBody("listed Leaf", s, parents[0], false); err != nil {
+				return err
+			}
+			k, _ := hd.Parse(s)
+			for i := 0; i < c.KeyCnt; i++ {
+				ch, e := k.Child(c.Path[L-1] + uint32(i))
+				if e != nil || !bytes.Equal(ch.PubKey(), pubs[i]) {
+					return fmt.Errorf("listed Leaf %s does not derive the public key of key %d (%v)", s, i, e)
+				}
+			}
+		}
+		if s := findTagged(comments, "Prnt:"); s != "" && L >= 2 {
+			gp, e := master.Derive(c.Path[:L-2])
+			if e != nil {
+				return nil
+			}
+			if err := sameBody("listed Prnt", s, gp, false); err != nil {
+				return err
+			}
+			if c.Path[L-2] < hd.Hardened {
+				k, _ := hd.Parse(s)
+				for sub := 0; sub < subs; sub++ {
+					par, e := k.Child(c.Path[L-2] + uint32(sub))
+					if e != nil {
+						return fmt.Errorf("listed Prnt %s: %v", s, e)
+					}
+					for i := 0; i < c.KeyCnt; i++ {
+						ch, e := par.Child(c.Path[L-1] + uint32(i))
+						if e != nil || !bytes.Equal(ch.PubKey(), pubs[sub*c.KeyCnt+i]) {
+							return fmt.Errorf("listed Prnt %s does not derive the public key of key %d", s, sub*c.KeyCnt+i)
+						}
+					}
+				}
+			}
+		}
+		return nil
 	}
-	return info, nil
+	err = verify(seed)
+	if err != nil && rawSeed != nil {
+		// class of the open finding C14-bip39-no-nfkd: the passphrase holds a character NFKD changes; is this the
+		// wallet of the passphrase hashed as typed?
+		if e2 := verify(rawSeed); e2 == nil {
+			return info, &knownFinding{key: kfNoNFKD, msg: fmt.Sprintf("BIP39 passphrase %+q is hashed as typed, not in NFKD form: %v", effPass, err)}
+		}
+	}
+	if err != nil && p39on {
+		err = fmt.Errorf("with the BIP39 passphrase %+q: %v", effPass, err)
+	}
+	return info, err
 }
 
 // ------------------------------------------------------------------------------------------------
@@ -734,6 +827,32 @@ func genPathElem(t *rapid.T, label string, room uint32) uint32 {
 	return v
 }
 
+// genP39 draws what the user types after "Enter the BIP39 password:" (without the line end).
+func genP39(t *rapid.T) string {
+	word := func() string { return genPassRunes(t, rapid.IntRange(1, 10).Draw(t, "p39len"), 0) }
+	switch rapid.IntRange(0, 12).Draw(t, "p39kind") {
+	case 0: // white space in front
+		return rapid.SampledFrom([]string{" ", "  ", "\t", " \t "}).Draw(t, "p39lead") + strings.TrimSpace(word()) + "x"
+	case 1: // spaces behind
+		return "x" + strings.TrimSpace(word()) + rapid.SampledFrom([]string{" ", "  ", "   "}).Draw(t, "p39trail")
+	case 2: // both
+		return " TREZOR "
+	case 3: // nothing but spaces
+		return rapid.SampledFrom([]string{" ", "  ", "     "}).Draw(t, "p39spaces")
+	case 4: // tabs behind (the line reader cuts trailing control characters) / nothing but tabs / nothing at all
+		return rapid.SampledFrom([]string{"a\t", "TREZOR \t", "\t", "", "", "\t\t"}).Draw(t, "p39tabs")
+	case 5: // runs of spaces and tabs inside
+		return "a  b" + rapid.SampledFrom([]string{"   ", "\t", " \t "}).Draw(t, "p39inner") + "c"
+	case 6, 9, 10: // characters NFKD changes
+		return genPassRunes(t, rapid.IntRange(1, 10).Draw(t, "p39len"), 50)
+	case 7, 11: // long
+		return genPassRunes(t, rapid.IntRange(100, 250).Draw(t, "p39long"), 0)
+	case 8:
+		return "TREZOR"
+	}
+	return word()
+}
+
 func genBinCase(t *rapid.T) binCase {
 	c := binCase{Type: 4, HDSubs: 1}
 	if rapid.IntRange(0, 4).Draw(t, "type3") == 0 {
@@ -762,15 +881,21 @@ func genBinCase(t *rapid.T) binCase {
 			}
 			c.Path = append(c.Path, genPathElem(t, fmt.Sprintf("p%d", i), room))
 		}
-		c.Bip39 = rapid.SampledFrom([]int{0, 0, 12, 15, 18, 21, 24, -1, -1}).Draw(t, "bip39")
+		c.Bip39 = rapid.SampledFrom([]int{-1, -1, -1, 0, 0, 12, 15, 18, 21, 24}).Draw(t, "bip39")
 	}
+	c.CRLF = rapid.IntRange(0, 4).Draw(t, "crlf") == 0
 	if c.Bip39 == -1 {
 		c.Scrypt = 0 // the wallet refuses scrypt together with a user mnemonic
 		n := rapid.SampledFrom([]int{16, 20, 24, 28, 32}).Draw(t, "entlen")
 		c.Entropy = hex.EncodeToString(rapid.SliceOfN(rapid.Byte(), n, n).Draw(t, "ent"))
 		c.Deco = rapid.IntRange(0, 4).Draw(t, "deco")
-		if c.Via == "file" && rapid.Bool().Draw(t, "p39on") {
-			c.P39 = strings.TrimSpace(genPass(t))
+		if rapid.IntRange(0, 5).Draw(t, "p39file") != 0 {
+			c.Via = "file" // the BIP39 passphrase is typed on stdin, so the sentence has to come from the .secret file
+		}
+		if c.Via == "file" && rapid.IntRange(0, 5).Draw(t, "p39on") != 0 {
+			c.P39On = true
+			c.P39 = genP39(t)
+			c.P39Term = rapid.SampledFrom([]string{"lf", "lf", "crlf", "eof"}).Draw(t, "p39term")
 		}
 	} else {
 		c.Password = hex.EncodeToString(genPassword(t, "pw", true))
@@ -778,6 +903,13 @@ func genBinCase(t *rapid.T) binCase {
 			p := bytes.TrimSpace(genPassword(t, "pfx", false))
 			p = bytes.Trim(p, "\"") // (the cfg parser does not unquote seed=, but keep clear of quoting questions)
 			if len(p) > 0 {
+				if rapid.IntRange(0, 3).Draw(t, "pfx_eq") == 0 {
+					// characters with a meaning elsewhere in the file format, inside the value
+					k := rapid.IntRange(0, len(p)).Draw(t, "pfx_eqpos")
+					p = []byte(string(p[:k]) + rapid.SampledFrom([]string{"=", "==", "=x=", "#", " = "}).Draw(t, "pfx_eqs") + string(p[k:]))
+				}
+				// white space around the value is wallet.cfg syntax, not part of the prefix
+				p = []byte(rapid.SampledFrom([]string{"", "", " ", "\t", "  "}).Draw(t, "pfx_lead") + string(p) + rapid.SampledFrom([]string{"", "", " ", "\t "}).Draw(t, "pfx_trail"))
 				c.SeedPfx = hex.EncodeToString(p)
 			}
 		}
@@ -789,7 +921,7 @@ func TestWalletBinary(t *testing.T) {
 	if _, err := walletBinary("wallet-c14"); err != nil {
 		t.Fatal(err)
 	}
-	pbt.Check(t, pbt.Cfg{Name: "wallet_bin", Quick: 420, Thorough: 12000}, func(r *pbt.Run) {
+	pbt.Check(t, pbt.Cfg{Name: "wallet_bin", Quick: 520, Thorough: 12000}, func(r *pbt.Run) {
 		c := genBinCase(r.T)
 		r.Case(c)
 		r.Class(fmt.Sprintf("type%d", c.Type))
@@ -813,8 +945,35 @@ func TestWalletBinary(t *testing.T) {
 		if c.SeedPfx != "" {
 			r.Class("seed_prefix")
 		}
-		if c.P39 != "" {
+		if on, _, eff := c.p39(); on {
 			r.Class("bip39_passphrase")
+			switch {
+			case eff == "":
+				r.Class("p39_empty_line")
+			case strings.Trim(eff, " \t") == "":
+				r.Class("p39_only_white_space")
+			}
+			if eff != "" && eff != strings.TrimSpace(eff) {
+				r.Class("p39_outer_white_space")
+			}
+			if eff != c.P39 {
+				r.Class("p39_trailing_control_characters_cut")
+			}
+			if strings.Contains(eff, "  ") || strings.Contains(strings.TrimSpace(eff), "\t") {
+				r.Class("p39_inner_white_space_runs")
+			}
+			if !hd.NFKDStable(eff) {
+				r.Class("p39_changed_by_nfkd")
+			} else if len(eff) != len([]rune(eff)) {
+				r.Class("p39_non_ascii_nfkd_stable")
+			}
+			if len(eff) > 100 {
+				r.Class("p39_long")
+			}
+			r.Class("p39_line_end_" + map[string]string{"": "lf", "lf": "lf", "crlf": "crlf", "eof": "eof"}[c.P39Term])
+		}
+		if c.CRLF && !c.Flags {
+			r.Class("cfg_crlf")
 		}
 		if pw, _ := hex.DecodeString(c.Password); !utf8.Valid(pw) || bytes.IndexFunc(pw, func(r rune) bool { return r > 126 || r < 32 }) >= 0 {
 			r.Class("non_ascii_password")
@@ -833,8 +992,11 @@ func TestWalletBinary(t *testing.T) {
 		if info.refKeys {
 			r.Class("keys_equal_reference_derivation")
 		}
+		if info.refusedEmptyP39 {
+			r.Class("p39_empty_line_refused")
+		}
 		if err != nil {
-			r.Failf("%v", err)
+			failOrExclude(r, err)
 		}
 	})
 }
